@@ -132,98 +132,183 @@ def run(chk, repo: Repo):
     _r4(chk, repo)
 
 
-def _rto(chk, repo, ci, fn):
-    inst = f"{ci.qual}.{fn.name}/M"
+LK = "<lk>"          # canonical name of "the current likelihood block"
+
+
+def _canon_lk(e: ast.expr, names: Dict[str, str]) -> ast.expr:
+    """rename the block variables of one enumeration (comprehension variables / loop variable) to canonical ones"""
+    from ..canon import clone
+    class T(ast.NodeTransformer):
+        def visit_Name(self, n):
+            if n.id in names:
+                return ast.copy_location(ast.parse(names[n.id].replace("<lk>", "LK__"), mode="eval").body, n)
+            return n
+    return T().visit(clone(e))
+
+
+def _rto(chk, repo, ci, fn_src):
+    """Decided on the structural normal form of the function that builds M (temporaries substituted, comprehension variables canonical);
+    the locals holding the likelihoods' sqrtprec list, the prior sqrtprec and sqrtprec@mean are found by what they are bound to."""
+    from .common import canon_fn
+    from ..pattern import statements, unify, find, norm as pn
+    inst = f"{ci.qual}.{fn_src.name}/M"
+    fn = canon_fn(repo, ci, fn_src, 4)
     M = _find_M(fn)
     b1, b2 = _branches(M)
-    from ..pattern import statements, unify, find
     problems = []
+    S0 = statements(fn, nested=True)
+    roles, _ = unify(["$L1=[_k0.distribution.sqrtprec for _k0 in self.likelihoods]", "$L2=self.prior.sqrtprec"], S0)
+    if roles is None:
+        raise AnchorError(f"{inst}: locals bound to the likelihoods' sqrtprec list / the prior sqrtprec not found")
+    L1n, L2n = roles["L1"], roles["L2"]
+    r2, _ = unify(["$L2mu=self.prior.sqrtprecTimesMean"], S0, roles)
+    L2mun = r2["L2mu"] if r2 else None
     S1 = [(t, a) for st in b1 for t, a in statements(ast.Module(body=[st], type_ignores=[]), nested=True)]
     S2 = [(t, a) for st in b2 for t, a in statements(ast.Module(body=[st], type_ignores=[]), nested=True)]
     xarg = func_params(M)[0]
-    # L1 definition gives the meaning of the zipped variable L
-    outer = _assigns(fn.body)
-    L1 = outer.get("L1")
-    if not (isinstance(L1, ast.ListComp) and _norm(L1) == "[likelihood.distribution.sqrtprecforlikelihoodinself.likelihoods]"):
-        raise AnchorError(f"{inst}: L1 is not the list of the likelihoods' sqrtprec")
-    if _norm(outer.get("L2", ast.Constant(value=None))) != "self.prior.sqrtprec":
-        problems.append("L2 is not the prior's sqrtprec")
-    subst = {"L": "likelihood.distribution.sqrtprec", "L2": "self.prior.sqrtprec"}
+    subst = {"LK__.distribution.sqrtprec": "likelihood.distribution.sqrtprec", L2n: "self.prior.sqrtprec"}
+
+    def chain(e, names):
+        c = parse_chain(_canon_lk(e, names), {L2n: "self.prior.sqrtprec"})
+        c.ops = [(k, t.replace("LK__", "likelihood")) for k, t in c.ops]
+        c.arg_txt = _norm(c.arg).replace("LK__", "likelihood")
+        return c
     # forward branch: stacked = hstack(likelihood blocks + [prior block])
-    bf, used = unify(["$o=np.hstack($o1+[$o2])"], S1)
-    if bf is None:
-        raise AnchorError(f"{inst}: forward branch does not stack `np.hstack(blocks + [prior block])`")
-    a1 = _assigns(b1)
-    o1 = a1.get(bf["o1"])
-    if not (isinstance(o1, ast.ListComp) and _norm(o1.generators[0].iter) == "zip(L1,self.likelihoods)" and _norm(o1.generators[0].target) in ("(L,likelihood)", "L,likelihood")):
-        raise AnchorError(f"{inst}: forward likelihood blocks are not a comprehension over zip(L1, self.likelihoods)")
-    fwd_like = parse_chain(o1.elt, subst)
-    fwd_prior = parse_chain(a1.get(bf["o2"]), subst)
-    if _norm(fwd_like.arg) != xarg or _norm(fwd_prior.arg) != xarg:
+    fwd_like = fwd_prior = None
+    for t, a in S1:
+        if isinstance(a, (ast.Assign, ast.Return)) and isinstance(a.value, ast.Call) and call_name(a.value) == "np.hstack" and len(a.value.args) == 1 \
+                and isinstance(a.value.args[0], ast.BinOp) and isinstance(a.value.args[0].op, ast.Add):
+            blocks, tail = a.value.args[0].left, a.value.args[0].right
+            a1 = _assigns(b1)
+            if isinstance(blocks, ast.Name):
+                blocks = a1.get(blocks.id)
+            if isinstance(tail, ast.List) and len(tail.elts) == 1:
+                pr = tail.elts[0]
+                if isinstance(pr, ast.Name) and pr.id in a1:
+                    pr = a1[pr.id]
+                if isinstance(blocks, ast.ListComp) and len(blocks.generators) == 1 and _norm(blocks.generators[0].iter) == f"zip({L1n},self.likelihoods)" \
+                        and isinstance(blocks.generators[0].target, ast.Tuple) and len(blocks.generators[0].target.elts) == 2:
+                    lv, kv = [x.id for x in blocks.generators[0].target.elts]
+                    fwd_like = chain(blocks.elt, {lv: "<lk>.distribution.sqrtprec", kv: "<lk>"})
+                    fwd_prior = chain(pr, {})
+    if fwd_like is None:
+        raise AnchorError(f"{inst}: forward likelihood blocks are not `np.hstack([.. for (L, likelihood) in zip(<sqrtprec list>, self.likelihoods)] + [prior block])`")
+    if fwd_like.arg_txt != xarg or fwd_prior.arg_txt != xarg:
         problems.append("forward blocks do not act on the operator's argument")
     # adjoint branch
     loops = [s_ for s_ in b2 if isinstance(s_, ast.For)]
-    adj_like = None
-    if len(loops) != 1 or _norm(loops[0].iter) not in ("self.likelihoods", "zip(L1,self.likelihoods)"):
+    if len(loops) != 1 or not (_norm(loops[0].iter) == "self.likelihoods" and isinstance(loops[0].target, ast.Name)
+                               or _norm(loops[0].iter) == f"zip({L1n},self.likelihoods)" and isinstance(loops[0].target, ast.Tuple)):
         problems.append("adjoint branch does not loop over self.likelihoods (same enumeration as the forward stacking)")
     else:
-        LB = statements(loops[0], nested=True)
-        ba, used = unify(["$ie+=len(likelihood.data)", "$is=$ie"], LB)
-        acc = [a for t, a in LB if isinstance(a, ast.AugAssign) and isinstance(a.op, ast.Add) and isinstance(a.value, ast.Call)
-               and not (used and a is used[0])]
-        if ba is None or len(acc) != 1:
-            problems.append("slice bookkeeping is not `end += len(likelihood.data); accumulate block; start = end`")
+        lp = loops[0]
+        if isinstance(lp.target, ast.Name):
+            names = {lp.target.id: "<lk>"}
         else:
-            adj_like = parse_chain(acc[0].value, subst)
-            want = [adjoint_of(op) for op in reversed(fwd_like.ops)]
-            if adj_like.ops != want or adj_like.coef != fwd_like.coef:
-                problems.append(f"likelihood block: forward is {fwd_like}, adjoint is {adj_like}; expected operators {want} "
-                                f"(the adjoint of L·F is F*·Lᵀ)")
-            if _norm(adj_like.arg) != f"{xarg}[{ba['is']}:{ba['ie']}]":
-                problems.append(f"adjoint likelihood block acts on `{_norm(adj_like.arg)}`, not on its own slice {xarg}[start:end]")
-            order = [t for t, a in LB]
-            i_end = order.index(f"{ba['ie']}+=len(likelihood.data)")
-            i_acc = [i for i, (t, a) in enumerate(LB) if a is acc[0]][0]
-            i_st = order.index(f"{ba['is']}={ba['ie']}")
+            names = {lp.target.elts[0].id: "<lk>.distribution.sqrtprec", lp.target.elts[1].id: "<lk>"}
+        lkname = [k for k, v in names.items() if v == "<lk>"][0]
+        LB = statements(lp, nested=True)
+        loc = _assigns(lp.body)
+        acc = [a for t, a in LB if isinstance(a, ast.AugAssign) and isinstance(a.op, ast.Add) and isinstance(a.value, ast.Call)]
+        acc = [a for a in acc if call_name(a.value) != "len"]
+        form = None
+        ba, used = unify([f"$ie+=len({lkname}.data)", "$is=$ie"], LB)
+        if ba is not None and len(acc) == 1:
+            form = "pair"
+        else:
+            # one running offset: block = x[o : o + len(data)], then o += len(data)
+            for pat in ([f"$o+=len({lkname}.data)"], [f"$n=len({lkname}.data)", "$o+=$n"]):
+                ba, used = unify(pat, LB)
+                if ba is not None and len(acc) == 1:
+                    form = "offset"
+                    break
+        if form is None:
+            # landmark of the pair form: `start = end` plus an advance of `end` by something else than the block's data length
+            bp, _ = unify(["$is=$ie"], LB)
+            adv = [a for t, a in LB if bp is not None and isinstance(a, ast.AugAssign) and _norm(a.target) == bp["ie"]]
+            if bp is not None and len(adv) == 1 and len(acc) == 1:
+                chk.fail("C06-R1", inst, site(repo, fn_src), f"the slice end is advanced by `{unparse(adv[0].value)}` per likelihood block, not by len({lkname}.data): "
+                         f"the adjoint blocks read other entries than the forward blocks produce", M)
+                return
+            chk.unknown("C06-R1", inst, site(repo, fn_src), "slice bookkeeping of the adjoint branch not recognised (neither start/end pair nor running offset)", M)
+            return
+        adj_like = chain(acc[0].value, names)
+        want = [adjoint_of(op) for op in reversed(fwd_like.ops)]
+        if adj_like.ops != want or adj_like.coef != fwd_like.coef:
+            problems.append(f"likelihood block: forward is {fwd_like}, adjoint is {adj_like}; expected operators {want} "
+                            f"(the adjoint of L·F is F*·Lᵀ)")
+        # the slice the block acts on (locals of the loop body are expanded)
+        arg = adj_like.arg
+        if isinstance(arg, ast.Name) and arg.id in loc:
+            arg = loc[arg.id]
+        atxt = _norm(arg)
+        for k_, v_ in loc.items():
+            if isinstance(v_, ast.Call) and call_name(v_) == "len":
+                atxt = atxt.replace(k_, _norm(v_))
+        order = [t for t, a in LB]
+        i_acc = [i for i, (t, a) in enumerate(LB) if a is acc[0]][0]
+        accname = _norm(acc[0].target)
+        inits = {t for t, a in S2}
+        if form == "pair":
+            if atxt != f"{xarg}[{ba['is']}:{ba['ie']}]":
+                problems.append(f"adjoint likelihood block acts on `{atxt}`, not on its own slice {xarg}[start:end]")
+            i_end = order.index(pn(f"{ba['ie']}+=len({lkname}.data)"))
+            i_st = order.index(pn(f"{ba['is']}={ba['ie']}"))
             if not (i_end < i_acc < i_st):
                 problems.append("slice bounds are not advanced before, and the start not after, the block is accumulated")
-            accname = _norm(acc[0].target)
-            inits = {t for t, a in S2}
-            if not {f"{ba['is']}=0", f"{ba['ie']}=0", f"{accname}=np.zeros(self.n)"} <= inits:
+            if not {pn(f"{ba['is']}=0"), pn(f"{ba['ie']}=0"), pn(f"{accname}=np.zeros(self.n)")} <= inits:
                 problems.append("slice counters / accumulator are not initialised to zero")
-            bo, _ = unify([f"$o={accname}+$p2"], S2)
-            if bo is None:
-                problems.append("adjoint blocks are not summed")
-            else:
-                adj_prior = parse_chain(_assigns(b2).get(bo["p2"]), subst)
-                want = [adjoint_of(op) for op in reversed(fwd_prior.ops)]
-                if adj_prior.ops != want or adj_prior.coef != fwd_prior.coef:
-                    problems.append(f"prior block: forward is {fwd_prior}, adjoint is {adj_prior}; expected operators {want}")
-                if _norm(adj_prior.arg) != f"{xarg}[{ba['ie']}:]":
-                    problems.append(f"adjoint prior block acts on `{_norm(adj_prior.arg)}`, not on the trailing slice {xarg}[end:]")
-    chk.add("C06-R1", inst, not problems, site(repo, M), f"forward blocks {fwd_like}, {fwd_prior}; adjoint is their blockwise transpose", "; ".join(problems), M)
+            tail_slice = f"{xarg}[{ba['ie']}:]"
+        else:
+            o = ba["o"]
+            ln = f"len({lkname}.data)"
+            if atxt not in (f"{xarg}[{o}:{o}+{ln}]", f"{xarg}[{o}:{ln}+{o}]"):
+                problems.append(f"adjoint likelihood block acts on `{atxt}`, not on its own slice {xarg}[offset:offset+len(data)]")
+            i_adv = [i for i, (t, a) in enumerate(LB) if isinstance(a, ast.AugAssign) and _norm(a.target) == o][0]
+            if not (i_acc < i_adv):
+                problems.append("the offset is advanced before the block is accumulated")
+            if not {pn(f"{o}=0"), pn(f"{accname}=np.zeros(self.n)")} <= inits:
+                problems.append("offset / accumulator are not initialised to zero")
+            tail_slice = f"{xarg}[{o}:]"
+        bo, _ = unify([f"$o_={accname}+$p2"], S2)
+        a2 = _assigns(b2)
+        p2e = None
+        if bo is not None:
+            p2e = a2.get(bo["p2"])
+        else:
+            for t, a in S2:
+                if isinstance(a, (ast.Assign, ast.Return)) and isinstance(a.value, ast.BinOp) and isinstance(a.value.op, ast.Add) and _norm(a.value.left) == accname:
+                    p2e = a.value.right
+        if p2e is None:
+            problems.append("adjoint blocks are not summed")
+        else:
+            adj_prior = chain(p2e, {})
+            want = [adjoint_of(op) for op in reversed(fwd_prior.ops)]
+            if adj_prior.ops != want or adj_prior.coef != fwd_prior.coef:
+                problems.append(f"prior block: forward is {fwd_prior}, adjoint is {adj_prior}; expected operators {want}")
+            if adj_prior.arg_txt != tail_slice:
+                problems.append(f"adjoint prior block acts on `{adj_prior.arg_txt}`, not on the trailing slice {tail_slice}")
+    chk.add("C06-R1", inst, not problems, site(repo, fn_src), f"forward blocks {fwd_like}, {fwd_prior}; adjoint is their blockwise transpose", "; ".join(problems), M)
     # R2: right-hand side
     problems = []
-    target = "self.b_tild"
     bt = None
-    for s in fn.body:
-        if isinstance(s, ast.Assign) and path_of(s.targets[0]) == target:
-            bt = s.value
+    for t, a in S0:
+        if isinstance(a, ast.Assign) and path_of(a.targets[0]) == "self.b_tild":
+            bt = a.value
     if bt is None:
         raise AnchorError(f"{inst}: b_tild not found")
-    want = "np.hstack([L@likelihood.dataforL,likelihoodinzip(L1,self.likelihoods)]+[L2mu])"
-    if _norm(bt) != want:
-        problems.append(f"b_tild is `{unparse(bt)}`: data blocks must be whitened by the same L, in the same order, as the operator blocks, followed by the prior block")
-    if _norm(outer.get("L2mu", ast.Constant(value=None))) != "self.prior.sqrtprecTimesMean":
-        problems.append("prior block of the right-hand side is not prior.sqrtprecTimesMean")
+    wants = {pn(f"np.hstack([_k0@_k1.data for _k0,_k1 in zip({L1n},self.likelihoods)]+[{x_}])") for x_ in ([L2mun] if L2mun else []) + ["self.prior.sqrtprecTimesMean"]}
+    if pn(bt) not in wants:
+        problems.append(f"b_tild is `{unparse(bt)}`: data blocks must be whitened by the same L, in the same order, as the operator blocks, followed by the prior block "
+                        f"(prior.sqrtprecTimesMean)")
     if fwd_like.ops[:1] != [("mat", "likelihood.distribution.sqrtprec")] or fwd_prior.ops != [("mat", "self.prior.sqrtprec")]:
         problems.append(f"operator blocks are not whitened by the likelihood/prior sqrtprec: {fwd_like}, {fwd_prior}")
     # explicit-matrix form must be the same stacking
-    mexp = [s for s in ast.walk(fn) if isinstance(s, ast.Assign) and path_of(s.targets[0]) == "self.M" and isinstance(s.value, ast.Call)]
-    if len(mexp) != 1 or _norm(mexp[0].value) != "sp.sparse.vstack([L@likelihood.modelforL,likelihoodinzip(L1,self.likelihoods)]+[L2])":
+    mexp = [a for t, a in S0 if isinstance(a, ast.Assign) and path_of(a.targets[0]) == "self.M" and isinstance(a.value, ast.Call)]
+    if len(mexp) != 1 or pn(mexp[0].value) != pn(f"sp.sparse.vstack([_k0@_k1.model for _k0,_k1 in zip({L1n},self.likelihoods)]+[{L2n}])"):
         problems.append("matrix form of M is not vstack([L @ model ...] + [L2])")
-    chk.add("C06-R2", f"{ci.qual}.{fn.name}/b_tild", not problems, site(repo, fn), "b_tild = [L_k data_k ...; sqrtprec·mean], operator = [L_k A_k ...; sqrtprec]",
-            "; ".join(problems), fn)
+    chk.add("C06-R2", f"{ci.qual}.{fn_src.name}/b_tild", not problems, site(repo, fn_src), "b_tild = [L_k data_k ...; sqrtprec·mean], operator = [L_k A_k ...; sqrtprec]",
+            "; ".join(problems), fn_src)
 
 
 def _ugla(chk, repo, ci, fn):
@@ -334,6 +419,8 @@ def _r3(chk, repo):
             b = {}
         if "y" in b:
             bb, used = unify([f"$sim={ctor}", f"{state},$_info=$sim.solve()"], S, b)
+            if bb is None:      # the solver's point goes through a temporary
+                bb, used = unify([f"$sim={ctor}", "$xn,$_info=$sim.solve()", f"{state}=$xn"], S, b)
             if bb is None:
                 sims = [t for t, a in S if "CGLS(" in t or "FISTA(" in t]
                 problems.append(f"solver is `{sims}`: it must be constructed on (M, perturbed rhs, current state, ...) and the new state must be its first result")
